@@ -17,7 +17,9 @@ RULE = ("case = a generated state-building history (3-9 segments of related ops 
         "token-factory denoms/admin hand-over/custom metadata/mints, sudoers edits and root change, inflation toggles and "
         "param edits, day-long blocks (epochs tick, inflation hook), fee shares, oracle feeder delegations, prevotes, "
         "votes, tallies (rates, miss counters), reward allocations) -> ExportAppStateAndValidators -> fresh app InitChain "
-        "-> second export; 5 fixed openers first; non-trivial = the exported state populates at least 3 of the feature "
+        "-> second export; values are drawn with a per-case hub so that many-to-one relations occur in every collection whose "
+        "values can coincide (several validators -> one feeder, denoms -> one admin/creator, contracts -> one deployer/"
+        "withdrawer/bytecode, equal rates / storage words / rewards); 6 fixed openers first; non-trivial = the exported state populates at least 3 of the feature "
         "groups {contract storage, funtokens, tf denoms, oracle pending votes/prevotes/rewards, oracle rates/miss, "
         "fee shares, inflation/epochs advanced, sudoers edited}; distinct = distinct input")
 ASSUMPTIONS = [
@@ -218,6 +220,19 @@ def classify(rec):
         if l:
             ks.append("exported:" + name)
     st = rec["obs"]["s1"]
+    # many-to-one relations (several keys of a collection share one value)
+    def shared(vals):
+        vals = list(vals)
+        return len(vals) != len(set(vals))
+    for name, vals in (("feeder", (f for _, f in g["oracle"]["feeders"])), ("tf-admin", (a for _, a in g["tf"]["denoms"])),
+                       ("tf-creator", (c for _, c, _ in st["tf"]["denoms"])),
+                       ("fee-deployer", (d for _, d, _, _ in g["devgas"]["shares"])), ("fee-withdrawer", (w for _, _, w, _ in g["devgas"]["shares"])),
+                       ("rate", (r for _, r in g["oracle"]["rates"])), ("miss-counter", (n for _, n in g["oracle"]["miss"])),
+                       ("contract-code", (c for _, c, _, _ in g["evm"]["accounts"])),
+                       ("storage-word", (w for _, _, _, sl in g["evm"]["accounts"] for _, w in sl)),
+                       ("sudo-contract-is-root", [g["sudo"]["root"]] + list(set(g["sudo"]["contracts"])))):
+        if shared(vals):
+            ks.append("shared:" + name)
     if len(st["oracle"]["pairs"]) != len(st["oracle"]["whitelist"]) or set(st["oracle"]["pairs"]) != set(st["oracle"]["whitelist"]):
         ks.append("state:whitelist-edit-pending")
     ks.append("import:" + ("ok" if rec["obs"]["import_ok"] else "panic"))
